@@ -29,6 +29,10 @@ pub mod backup;
 pub mod cygen;
 pub mod query;
 pub mod update;
+pub mod btree;
+pub mod englib;
+pub mod pager;
+pub mod vacuum;
 
 pub fn all() -> Vec<StreamDef> {
     vec![
@@ -42,6 +46,9 @@ pub fn all() -> Vec<StreamDef> {
         backup::def(),
         query::def(),
         update::def(),
+        btree::def(),
+        pager::def(),
+        vacuum::def(),
     ]
 }
 
